@@ -1,6 +1,8 @@
 """C17 - Frequency variance equals first-order propagation of the Hankel covariance  [D + P]."""
 from __future__ import annotations
 
+import collections
+
 import numpy as np
 
 from vf import gen, probes
@@ -251,8 +253,17 @@ def run_class(ctx, rng):
     F, X, P, L, Fc, Xc, Pc = S_.SSI_poles(Obs, A, C, ordmax, 0.01, calc_unc=True, Q1=Q1, Q2=Q2, Q3=Q3, Q4=Q4)
     r = a.result
     kept = np.isfinite(r.Fn_poles)
-    ctx.check(r.Fn_poles_cov is not None and np.array_equal(np.asarray(r.Fn_poles_cov)[kept], Fc[kept]), "class:variances_differ_from_function_path",
-              "result.Fn_poles_cov differs from SSI_fast+SSI_poles applied to build_hank's output")
+    # pole by pole: the variance stored beside a pole is the variance the function path reports for THAT pole (whatever the row order)
+    def pairs(Ft, Xt, Fct, Xct, col):
+        rows = [i for i in range(Ft.shape[0]) if np.isfinite(Ft[i, col])]
+        return collections.Counter(tuple(-1.0 if np.isnan(v) else float(v) for v in (Ft[i, col], Xt[i, col], Fct[i, col], Xct[i, col])) for i in rows)
+
+    okp = r.Fn_poles_cov is not None and r.Xi_poles_cov is not None
+    if okp:
+        Fr, Xr, Fcr, Xcr = (np.asarray(t) for t in (r.Fn_poles, r.Xi_poles, r.Fn_poles_cov, r.Xi_poles_cov))
+        okp = Fr.shape == F.shape and all(not (pairs(Fr, Xr, Fcr, Xcr, c) - pairs(F, X, Fc, Xc, c)) for c in range(F.shape[1]))  # kept poles are a sub-multiset
+    ctx.check(okp, "class:variances_differ_from_function_path",
+              "result.Fn_poles_cov / Xi_poles_cov are not, pole by pole, the variances SSI_fast+SSI_poles give for build_hank's output")
     judge_orders(ctx, "delta-method@SSI_fast+SSI_poles(factor from data)", S_, Hd, br, ordmax, 0.01, Td, [ordmax], "class")
     ctx.nontrivial(("class", l, refidx is None, nb))
 
